@@ -1108,7 +1108,12 @@ func main() {
 			"End to end (needs the plz binary): generated repositories (harness/e2e: up to 4 packages incl. a nested one, genrule / filegroup / text_file targets over files and labels, " +
 			"2 in 3 with a directory source holding nested files) committed to a git work tree, 1-3 random edits (file contents, files under the directory source, sources added / dropped / swapped, commands, " +
 			"outputs, comments, targets added / removed, unused files) committed on top; real `plz query changes --since HEAD~1 --level N` and `plz query changes --level N <changed files>` " +
-			"compared with query.DiffGraphs / query.Changes in process on a mirror of the two states (each also a model case) and with `plz hash //...` of both states")
+			"compared with query.DiffGraphs / query.Changes in process on a mirror of the two states (each also a model case) and with `plz hash //...` of both states. " +
+			"Histories (needs the plz binary): git repositories with 3-4 commits on main, optionally a branch left at the first commit and a branch created before the last commit; a commit changes only .plzconfig " +
+			"in an option that enters the configuration hash (build.nonce, build.lang, [buildenv], licences.reject), only .plzconfig in one that does not (please.motd), BUILD files / sources by a random edit, " +
+			"adds a target and edits a command, or edits a file; every third scenario ends in a configuration-only commit, every third in a BUILD-only commit; `plz query changes --since REV --level N` " +
+			"(REV = HEAD~1, HEAD~2, a commit hash or a branch) is run on the branch AND on a detached HEAD at the same commit; compared with `plz hash --detailed //...` of FRESH checkouts of the two revisions " +
+			"(changed or new => reported), with HEAD before = HEAD after, with query.DiffGraphs in process, and with the model of the whole flow over the operation history (CSince cases)")
 		var replay caseJS
 		if c.ReadReplay(&replay) && replay.Graph != nil {
 			runQuery(c, replay.Graph, replay.Query, true, "replay")
@@ -1126,6 +1131,7 @@ func main() {
 		}
 		runLadders(c)
 		runE2E(c)
+		runSince(c)
 		c.Note("a reported target that the reference does not require is not a violation (histogram extra_reported counts them per query)")
 	})
 }
